@@ -24,7 +24,7 @@ place_demo() {
   fi
   if ls "$seed"/demo/*_test.go >/dev/null 2>&1 && ! ls "$seed"/demo/main.go >/dev/null 2>&1; then
     # test-file demos: README must say where; convention: meta.json "demo_pkg"
-    pkg=$(python3 -c "
+    pkg=${SEED_DEMO_PKG:-}; [ -n "$pkg" ] || pkg=$(python3 -c "
 import json,re
 m=json.load(open('$seed/meta.json'))
 p=m.get('demo_pkg','')
